@@ -160,9 +160,53 @@ theorem renderPassage_sec (c : ECfg S) (hv : c.variant = .main) (pid : String) (
         simp only [hv] at hos
         exact offerChoices_sec _ _ _ _ _ _ _ _ hos ch hch
 
-/-- after a `-> @join` choice the section shown offers exactly choices of the next section -/
+/-- every offered choice comes from the list handed in, with its block flag -/
+theorem offerChoices_from (cfg : RCfg S) (cur : Option String) (used : List String) (secOk : Choice → Bool) :
+    ∀ (cs : List (Choice × Option String × Bool)) (rs : RS S.V) (os : List OChoice),
+      (offerChoices cfg cur used secOk cs rs).2 = .ok os → ∀ o ∈ os, ∃ x ∈ cs, x.1 = o.c ∧ x.2.2 = o.isBlock := by
+  intro cs
+  induction cs with
+  | nil => intro rs os h o ho; simp only [offerChoices, Except.ok.injEq] at h; subst h; simp at ho
+  | cons x rest ih =>
+    obtain ⟨ch, pre, blk⟩ := x
+    intro rs os h o ho
+    unfold offerChoices at h
+    split at h
+    · simp at h
+    · rename_i rs1 av he
+      split at h
+      · split at h
+        · simp at h
+        · rename_i rs2 t he2
+          split at h
+          · simp at h
+          · rename_i rs3 os' he3
+            simp only [Except.ok.injEq] at h; subst h
+            rcases List.mem_cons.mp ho with ho | ho
+            · subst ho; exact ⟨(ch, pre, blk), by simp, rfl, rfl⟩
+            · obtain ⟨x, hx, hc⟩ := ih rs2 os' (by rw [he3]) o ho
+              exact ⟨x, by simp [hx], hc⟩
+      · obtain ⟨x, hx, hc⟩ := ih rs1 os h o ho
+        exact ⟨x, by simp [hx], hc⟩
+
+theorem dirChoices_block {V} : ∀ (ds : List (Dir V)) x, x ∈ dirChoices ds → x.2.2 = true
+  | [], x, h => by simp [dirChoices] at h
+  | d :: ds, x, h => by
+    cases d with
+    | choice c pre =>
+      simp only [dirChoices, List.mem_cons] at h
+      rcases h with h | h
+      · subst h; rfl
+      · exact dirChoices_block ds x h
+    | renderEval _ _ _ => exact dirChoices_block ds x (by simpa [dirChoices] using h)
+    | renderErr _ _ _ => exact dirChoices_block ds x (by simpa [dirChoices] using h)
+    | input _ => exact dirChoices_block ds x (by simpa [dirChoices] using h)
+
+/-- after a `-> @join` choice the section shown offers choices of the next section and choices written inside the
+blocks of the section just rendered — nothing else -/
 theorem renderFromJoinMarker_sec (c : ECfg S) (idx : Nat) (l l' : Live S.V) (o : Output S.V)
-    (h : renderFromJoinMarker c idx l = (l', .ok o)) : ∀ ch ∈ o.choices, (ch.c.sec == idx + 1) = true := by
+    (h : renderFromJoinMarker c idx l = (l', .ok o)) :
+    ∀ ch ∈ o.choices, ch.isBlock = true ∨ (ch.c.sec == idx + 1) = true := by
   unfold renderFromJoinMarker at h
   dsimp only at h
   split at h
@@ -177,6 +221,14 @@ theorem renderFromJoinMarker_sec (c : ECfg S) (idx : Nat) (l l' : Live S.V) (o :
           simp only [Prod.mk.injEq, Except.ok.injEq] at h
           intro ch hch
           rw [← h.2] at hch
-          exact offerChoices_sec _ _ _ _ _ _ _ _ hos ch hch
+          obtain ⟨x, hx, hc, hb⟩ := offerChoices_from _ _ _ _ _ _ _ (by rw [hos]) ch hch
+          rcases List.mem_append.mp hx with hx | hx
+          · right
+            obtain ⟨y, hy, rfl⟩ := List.mem_map.mp hx
+            rw [← hc]
+            exact (List.mem_filter.mp hy).2
+          · left
+            rw [← hb]
+            exact dirChoices_block _ _ hx
 
 end Bardic
